@@ -5,6 +5,7 @@ import (
 	"github.com/markusressel/fan2go/internal/configuration"
 	"github.com/markusressel/fan2go/internal/ui"
 	"github.com/markusressel/fan2go/internal/util"
+	"math"
 	"strconv"
 	"sync"
 	"time"
@@ -39,6 +40,11 @@ func (sensor *CmdSensor) GetValue() (float64, error) {
 	if err != nil {
 		ui.Warning("sensor %s: Unable to read int from command output: %s", sensor.GetId(), exec)
 		return 0, err
+	}
+
+	if math.IsNaN(temp) || math.IsInf(temp, 0) {
+		ui.Warning("sensor %s: command output is not a finite number: %s", sensor.GetId(), result)
+		return 0, fmt.Errorf("sensor %s: non-finite value: %s", sensor.GetId(), result)
 	}
 
 	return temp, nil
